@@ -30,6 +30,12 @@ class Prop(PropBase):
                 scn_all.append(scen.mixed_scenario(rng, self.L, t, f'c02_{t}_{r}', cfg, malformed_p=0.0, badblk_p=0.0, gap_p=0.15,
                                                    start_az=rng.choice([None, 35900, 35990, 0]), dist=far, rpm=rng.choice([300, 600, 1200, 2400]),
                                                    npk=3 if t != 'RSM1_JUMBO' else 1))
+        # Bpearl: v3/v4 x normal/reversed with non-zero horizontal calibration
+        for v4 in (False, True):
+            for rev in (0, 1):
+                cfg = scen.rand_cfg(rng, dense=0, wait=1, pktcb=0, min=0.0, max=0.0)
+                scn_all.append(scen.mixed_scenario(rng, self.L, 'RSBP', f'c02_RSBP_{"v4" if v4 else "v3"}_{"rev" if rev else "fwd"}', cfg, malformed_p=0.0, badblk_p=0.0,
+                                                   dist=far, npk=2, bpv4=v4, reversal=rev, difop_at=0))
         # corpus: recorded findings D18 (M1 angles below -90 deg) and D17 (MX x decoded unsigned)
         l = self.L['RSM1']
         s = scen.Scn('c02_corpus_m1_low_yaw')
